@@ -278,8 +278,244 @@ class SplitUnpack(ast.NodeTransformer):
                 setattr(holder, f, out)
         return fn
 
+_LIBS = {"networkx", "numpy", "pandas", "copy", "itertools", "collections", "functools", "operator", "heapq", "math"}
 
-KINDS = {"comp2loop": Comp2Loop, "swapindep": SwapIndependent, "splitunpack": SplitUnpack, "flip": Flip, "invert": Invert, "kwargs": Kwargs, "aug": Aug, "noise": Noise, "annot": Annot, "inlinetemp": InlineTemp, "extracttemp": ExtractTemp}
+
+def _bound_names(tree) -> set:
+    out = set()
+    for n in ast.walk(tree):
+        if isinstance(n, ast.Name) and isinstance(n.ctx, (ast.Store, ast.Del)):
+            out.add(n.id)
+        elif isinstance(n, ast.arg):
+            out.add(n.arg)
+        elif isinstance(n, (ast.FunctionDef, ast.AsyncFunctionDef, ast.ClassDef)):
+            out.add(n.name)
+        elif isinstance(n, ast.ExceptHandler) and n.name:
+            out.add(n.name)
+        elif isinstance(n, (ast.Global, ast.Nonlocal)):
+            out.update(n.names)
+    return out
+
+
+class ImportStyle(ast.NodeTransformer):
+    """module-level `import M as A` + `A.x`  <->  `from M import x` + `x` (the other spelling of each library reference):
+         import networkx as nx ; nx.f(..)        ->  import networkx ; networkx.f(..)
+         import itertools ; itertools.chain(..)  ->  from itertools import chain ; chain(..)      (no clash with a bound name)
+         from copy import deepcopy ; deepcopy(x) ->  import copy as _copy_mod ; _copy_mod.deepcopy(x)
+       only for top-level imports of library modules that are used as plain `A.x` / `x` loads everywhere."""
+
+    def visit_Module(self, mod):
+        bound = _bound_names(mod)
+        imported = set()
+        for st in ast.walk(mod):
+            if isinstance(st, (ast.Import, ast.ImportFrom)):
+                for a in st.names:
+                    imported.add(a.asname or a.name.split(".")[0])
+        top = [st for st in mod.body if isinstance(st, (ast.Import, ast.ImportFrom))]
+        nested = {id(a) for st in ast.walk(mod) if isinstance(st, (ast.Import, ast.ImportFrom)) and st not in top for a in st.names}
+        nested_names = {a.asname or a.name.split(".")[0] for st in ast.walk(mod) if isinstance(st, (ast.Import, ast.ImportFrom)) and st not in top for a in st.names}
+        alias_to_attr = {}   # local alias -> new root expression text
+        name_to_attr = {}    # bare imported name -> "mod.name"
+        attr_to_name = {}    # alias -> {attr: bare}
+        new_body = []
+        uses = {}
+        for n in ast.walk(mod):
+            if isinstance(n, ast.Attribute) and isinstance(n.value, ast.Name):
+                uses.setdefault(n.value.id, set()).add(n.attr)
+        plain_loads = {}
+        for n in ast.walk(mod):
+            if isinstance(n, ast.Name):
+                plain_loads[n.id] = plain_loads.get(n.id, 0) + 1
+        attr_roots = {}
+        for n in ast.walk(mod):
+            if isinstance(n, ast.Attribute) and isinstance(n.value, ast.Name):
+                attr_roots[n.value.id] = attr_roots.get(n.value.id, 0) + 1
+        for st in mod.body:
+            if isinstance(st, ast.Import) and len(st.names) == 1 and st.names[0].name in _LIBS:
+                a = st.names[0]
+                local = a.asname or a.name
+                if local in bound or local in nested_names:
+                    new_body.append(st)
+                    continue
+                only_attr = plain_loads.get(local, 0) == attr_roots.get(local, 0)   # every use is `local.x`
+                if a.name in ("networkx", "numpy", "pandas"):
+                    if a.asname and a.name not in bound | imported and only_attr:
+                        alias_to_attr[local] = a.name
+                        new_body.append(ast.Import(names=[ast.alias(name=a.name, asname=None)]))
+                        continue
+                else:
+                    attrs = uses.get(local, set())
+                    if only_attr and attrs and not (attrs & (bound | imported)) and local not in attrs:
+                        attr_to_name[local] = {x: x for x in attrs}
+                        new_body.append(ast.ImportFrom(module=a.name, names=[ast.alias(name=x, asname=None) for x in sorted(attrs)], level=0))
+                        continue
+                new_body.append(st)
+            elif isinstance(st, ast.ImportFrom) and st.level == 0 and st.module in _LIBS and st.module not in ("networkx", "numpy", "pandas") \
+                    and all(a.name != "*" for a in st.names):
+                fresh = f"_{st.module}_mod"
+                if fresh in bound | imported or any((a.asname or a.name) in bound | nested_names for a in st.names):
+                    new_body.append(st)
+                    continue
+                for a in st.names:
+                    name_to_attr[a.asname or a.name] = (fresh, a.name)
+                new_body.append(ast.Import(names=[ast.alias(name=st.module, asname=fresh)]))
+            else:
+                new_body.append(st)
+        mod.body = new_body
+
+        class R(ast.NodeTransformer):
+            def visit_Attribute(s, n):
+                if isinstance(n.value, ast.Name):
+                    r = n.value.id
+                    if r in alias_to_attr:
+                        return ast.copy_location(ast.Attribute(value=ast.Name(id=alias_to_attr[r], ctx=ast.Load()), attr=n.attr, ctx=n.ctx), n)
+                    if r in attr_to_name and n.attr in attr_to_name[r]:
+                        return ast.copy_location(ast.Name(id=n.attr, ctx=n.ctx), n)
+                s.generic_visit(n)
+                return n
+
+            def visit_Name(s, n):
+                if n.id in name_to_attr and isinstance(n.ctx, ast.Load):
+                    m_, x = name_to_attr[n.id]
+                    return ast.copy_location(ast.Attribute(value=ast.Name(id=m_, ctx=ast.Load()), attr=x, ctx=ast.Load()), n)
+                return n
+        return R().visit(mod)
+
+
+def _terminates(body) -> bool:
+    return bool(body) and isinstance(body[-1], (ast.Return, ast.Raise, ast.Continue, ast.Break))
+
+
+class _Blocks(ast.NodeTransformer):
+    """base: rewrite every statement list through self.block(list) (innermost first)"""
+
+    def block(self, body):
+        return body
+
+    def generic_visit(self, node):
+        super().generic_visit(node)
+        for f in ("body", "orelse", "finalbody"):
+            b = getattr(node, f, None)
+            if isinstance(b, list) and b and isinstance(b[0], ast.stmt):
+                setattr(node, f, self.block(b) or [ast.Pass()])
+        return node
+
+
+class MergeIf(_Blocks):
+    """if a: (only statement) if b: X   ->   if a and b: X      (no else on either)"""
+
+    def block(self, body):
+        out = []
+        for st in body:
+            if isinstance(st, ast.If) and not st.orelse and len(st.body) == 1 and isinstance(st.body[0], ast.If) and not st.body[0].orelse:
+                inner = st.body[0]
+                vals = (st.test.values if isinstance(st.test, ast.BoolOp) and isinstance(st.test.op, ast.And) else [st.test]) + \
+                       (inner.test.values if isinstance(inner.test, ast.BoolOp) and isinstance(inner.test.op, ast.And) else [inner.test])
+                if not any(isinstance(v, ast.BoolOp) for v in vals) and not any(isinstance(n, ast.NamedExpr) for v in vals for n in ast.walk(v)):
+                    st = ast.copy_location(ast.If(test=ast.BoolOp(op=ast.And(), values=vals), body=inner.body, orelse=[]), st)
+            out.append(st)
+        return out
+
+
+class SplitIf(_Blocks):
+    """if a and b: X   ->   if a: if b: X      (no else)"""
+
+    def block(self, body):
+        out = []
+        for st in body:
+            if isinstance(st, ast.If) and not st.orelse and isinstance(st.test, ast.BoolOp) and isinstance(st.test.op, ast.And) and len(st.test.values) == 2:
+                a, b = st.test.values
+                st = ast.copy_location(ast.If(test=a, body=[ast.copy_location(ast.If(test=b, body=st.body, orelse=[]), st)], orelse=[]), st)
+            out.append(st)
+        return out
+
+
+class ElseWrap(_Blocks):
+    """if c: ...; return     rest...      ->   if c: ...; return    else: rest...     (function bodies and loop bodies alike)"""
+
+    def block(self, body):
+        for i, st in enumerate(body):
+            if isinstance(st, ast.If) and not st.orelse and _terminates(st.body) and i + 1 < len(body) \
+                    and not any(isinstance(x, (ast.FunctionDef, ast.ClassDef, ast.Import, ast.ImportFrom, ast.Global, ast.Nonlocal)) for x in body[i + 1:]):
+                st.orelse = body[i + 1:]
+                return body[:i + 1]
+        return body
+
+
+class UnElse(_Blocks):
+    """if c: ...; return    else: rest...   ->   if c: ...; return      rest...      (last statement of its block only)"""
+
+    def block(self, body):
+        if body and isinstance(body[-1], ast.If) and body[-1].orelse and _terminates(body[-1].body) \
+                and not (len(body[-1].orelse) == 1 and isinstance(body[-1].orelse[0], ast.If)):
+            st = body[-1]
+            rest = st.orelse
+            st.orelse = []
+            return body[:-1] + [st] + rest
+        return body
+
+
+class Ternary2If(_Blocks):
+    """x = a if c else b   ->   if c: x = a  else: x = b       (plain name target)"""
+
+    def block(self, body):
+        out = []
+        for st in body:
+            if isinstance(st, ast.Assign) and len(st.targets) == 1 and isinstance(st.targets[0], ast.Name) and isinstance(st.value, ast.IfExp):
+                v = st.value
+                mk = lambda e: ast.copy_location(ast.Assign(targets=[ast.Name(id=st.targets[0].id, ctx=ast.Store())], value=e), st)  # noqa: E731
+                st = ast.copy_location(ast.If(test=v.test, body=[mk(v.body)], orelse=[mk(v.orelse)]), st)
+            out.append(st)
+        return out
+
+
+class DeMorgan(ast.NodeTransformer):
+    """in test position of if / while / ternary / comprehension filter:   not (a and b) -> not a or not b ;  a and b -> not (not a or not b) is NOT applied
+       (only the first direction, and `a != b` -> `not a == b`)"""
+
+    def _t(self, t):
+        if isinstance(t, ast.UnaryOp) and isinstance(t.op, ast.Not) and isinstance(t.operand, ast.BoolOp):
+            op = ast.Or() if isinstance(t.operand.op, ast.And) else ast.And()
+            return ast.copy_location(ast.BoolOp(op=op, values=[ast.UnaryOp(op=ast.Not(), operand=v) for v in t.operand.values]), t)
+        if isinstance(t, ast.Compare) and len(t.ops) == 1 and isinstance(t.ops[0], (ast.NotEq, ast.NotIn, ast.IsNot)):
+            pos = {ast.NotEq: ast.Eq, ast.NotIn: ast.In, ast.IsNot: ast.Is}[type(t.ops[0])]()
+            return ast.copy_location(ast.UnaryOp(op=ast.Not(), operand=ast.Compare(left=t.left, ops=[pos], comparators=t.comparators)), t)
+        return t
+
+    def visit_If(self, n):
+        self.generic_visit(n)
+        n.test = self._t(n.test)
+        return n
+
+    visit_While = visit_If
+    visit_IfExp = visit_If
+
+    def visit_comprehension(self, n):
+        self.generic_visit(n)
+        n.ifs = [self._t(t) for t in n.ifs]
+        return n
+
+
+class UnGuard(_Blocks):
+    """loop body   if c: continue ; rest...    ->   if not c: rest...       (the inverse of the guard-clause form, N7)"""
+
+    def visit_For(self, node):
+        self.generic_visit(node)
+        node.body = self._un(node.body)
+        return node
+
+    visit_While = visit_For
+
+    def _un(self, body):
+        for i, st in enumerate(body):
+            if isinstance(st, ast.If) and not st.orelse and len(st.body) == 1 and isinstance(st.body[0], ast.Continue) and i + 1 < len(body) \
+                    and not any(isinstance(x, (ast.FunctionDef, ast.ClassDef)) for x in body[i + 1:]):
+                rest = self._un(body[i + 1:])
+                return body[:i] + [ast.copy_location(ast.If(test=ast.UnaryOp(op=ast.Not(), operand=st.test), body=rest, orelse=[]), st)]
+        return body
+
+
+KINDS = {"mergeif": MergeIf, "splitif": SplitIf, "elsewrap": ElseWrap, "unelse": UnElse, "ternary2if": Ternary2If, "demorgan": DeMorgan, "unguard": UnGuard, "imports": ImportStyle, "comp2loop": Comp2Loop, "swapindep": SwapIndependent, "splitunpack": SplitUnpack, "flip": Flip, "invert": Invert, "kwargs": Kwargs, "aug": Aug, "noise": Noise, "annot": Annot, "inlinetemp": InlineTemp, "extracttemp": ExtractTemp}
 
 
 def reshaped(src: str, kind: str) -> str:
@@ -290,7 +526,7 @@ def reshaped(src: str, kind: str) -> str:
     return out
 
 
-@functools.lru_cache(maxsize=8)
+@functools.lru_cache(maxsize=32)
 def reshaped_package(root: str, kind: str, package: str = "synkit"):
     out = {}
     for dp, dn, fn in os.walk(os.path.join(root, package)):
